@@ -3,8 +3,9 @@
 //!
 //! ops (see lean/Driver/C11.lean):
 //!   slice slot idx last hasParent pslot hseed len a b tail…   -> `plen <n> fp <fnv>`
-//!   shred <r|c|p|a> keyseed                                    -> `ok sb <n> nd <n> nc <n> dfp <fnv|->` | `err TooMuchData` | `panic`
+//!   shred <r|c|p|a> keyseed [o]                                -> `ok sb <n> nd <n> nc <n> dfp <fnv|->` | `err TooMuchData` | `panic`
 //!   deshred <r|c|p|a> <mask: 64 × 0/1> edits…                  -> `ok hdr s i l par <fnv|-> data <fnv> len <n> eq <n>` | `err <Kind> same <0|1>` | `panic`
+//! (`o`: shredded by the shredder of ANOTHER node, not by the long-lived instance under test; the model has no instances)
 //! edits: `f i` flips the (unauthenticated) data/coding tag of entry i on the wire and re-validates it;
 //!        `m i j` stores entry i (also) at position j.
 use ag_harness::*;
@@ -131,7 +132,11 @@ impl V {
     // operation must depend on its arguments only, not on what the instance was used for before (failed decodes
     // included). A panic may leave an instance in any state, so it is replaced after one.
     fn shred(self, slice: &Slice, sk: &SecretKey) -> Result<Result<[ValidatedShred; TOTAL_SHREDS], String>, String> {
-        POOL.with(|p| {
+        self.shred_on(false, slice, sk)
+    }
+    /// `other`: use the long-lived shredders of another node (a leader: they only ever shred)
+    fn shred_on(self, other: bool, slice: &Slice, sk: &SecretKey) -> Result<Result<[ValidatedShred; TOTAL_SHREDS], String>, String> {
+        (if other { &OTHER_POOL } else { &POOL }).with(|p| {
             let mut p = p.borrow_mut();
             let r = catch(|| match self {
                 V::R => p.0.shred(slice, sk).map_err(|e| format!("{e:?}")),
@@ -160,6 +165,12 @@ impl V {
 
 thread_local! {
     static POOL: std::cell::RefCell<(RegularShredder, CodingOnlyShredder, PetsShredder, AontShredder)> = std::cell::RefCell::new(Default::default());
+    static OTHER_POOL: std::cell::RefCell<(RegularShredder, CodingOnlyShredder, PetsShredder, AontShredder)> = std::cell::RefCell::new(Default::default());
+}
+
+/// replaces the instances under test by freshly constructed ones (initial configuration of the coder)
+fn fresh_pool() {
+    POOL.with(|p| *p.borrow_mut() = Default::default());
 }
 
 /// bit-for-bit fingerprint of a validated shred: wire bytes of the shred + the cached root
@@ -189,6 +200,8 @@ struct Ctx {
     spec: Option<SliceSpec>,
     out: Option<(V, Vec<ValidatedShred>)>,
     class: u64,
+    /// what the long-lived instances under test did since the case began (for the failure text of history cases)
+    hist: Vec<String>,
 }
 
 impl Ctx {
@@ -202,13 +215,19 @@ impl Ctx {
     }
 
     fn shred(&mut self, v: V, keyseed: u64) {
+        self.shred_on(v, keyseed, false)
+    }
+    /// `other`: the slice is shredded by another node's shredder, not by the instance under test
+    fn shred_on(&mut self, v: V, keyseed: u64, other: bool) {
         let spec = self.spec.clone().expect("slice first");
         let slice = spec.build();
         let pb = spec.payload_ref();
-        let op = format!("shred {} {}", v.tag(), keyseed);
-        let res = v.shred(&slice, &self.sk);
+        let op = format!("shred {} {}{}", v.tag(), keyseed, if other { " o" } else { "" });
+        let res = v.shred_on(other, &slice, &self.sk);
         let fits = pb.len() <= v.limit();
-        let what = |s: &str| format!("{op} on `{}` (payload {} bytes, limit {}): {s}", spec.op(), pb.len(), v.limit());
+        let hist = if self.hist.is_empty() { String::new() } else { format!("; the same {} instance before: {}", v.tag(), self.hist.join(", ")) };
+        if !other { self.hist.push(format!("shred {}B", pb.len())); }
+        let what = |s: &str| format!("{op} on `{}` (payload {} bytes, limit {}): {s}{hist}", spec.op(), pb.len(), v.limit());
         match res {
             Err(msg) => {
                 self.rec.step(&op, "panic");
@@ -299,7 +318,10 @@ impl Ctx {
         let before = arr_wire(&arr);
         let res = v.deshred(&mut arr);
         let after = arr_wire(&arr);
-        let what = |s: &str| format!("{op} after `shred {}` of `{}` ({} shreds supplied): {s}", sv.tag(), spec.op(), n);
+        let hist = if self.hist.is_empty() { String::new() } else { format!("; the same {} instance before: {}", v.tag(), self.hist.join(", ")) };
+        self.hist.push(format!("deshred {}B/{n}", spec.payload_ref().len()));
+        if self.hist.len() > 24 { self.hist.remove(0); }
+        let what = |s: &str| format!("{op} after `shred {}` of `{}` ({} shreds supplied): {s}{hist}", sv.tag(), spec.op(), n);
         let documented_panic = edits.iter().any(|e| e.0 == 'm');
         match res {
             Err(msg) => {
@@ -393,7 +415,7 @@ fn main() {
     let sk = SecretKey::new(&mut rng);
     let pk = sk.to_pk();
     let other_pk = SecretKey::new(&mut rng).to_pk();
-    let mut cx = Ctx { rec: Recorder::new(), sk, pk, other_pk, spec: None, out: None, class: 0 };
+    let mut cx = Ctx { rec: Recorder::new(), sk, pk, other_pk, spec: None, out: None, class: 0, hist: vec![] };
 
     // ---- payload lengths (in serialized bytes); the data length is derived from them
     // every residue mod 64 at small sizes, around a medium size, and up to (and beyond) both limits
@@ -460,6 +482,7 @@ fn main() {
             tail,
         };
         cx.class = 0;
+        cx.hist.clear();
         cx.rec.begin_case(if heavy { "roundtrip-heavy" } else { "roundtrip" });
         cx.slice(spec);
         // light cases: two of the four shredders (quick) / one (thorough: every length is visited), rotating
@@ -508,6 +531,7 @@ fn main() {
         let plen = 9 + rng.below(3000) as usize;
         let spec = SliceSpec { slot: rng.below(1000), idx: rng.below(1024) as usize, last: rng.chance(1, 2), parent: None, len: plen - 9, a: rng.below(256), b: rng.below(256), tail: vec![] };
         cx.class = 0;
+        cx.hist.clear();
         cx.rec.begin_case("layout");
         cx.slice(spec);
         let sv = V::ALL[rng.below(4) as usize];
@@ -547,6 +571,123 @@ fn main() {
         }
         let class = cx.class;
         cx.rec.end_case(class, true);
+    }
+
+    // ---- instance histories: ONE long-lived shredder instance restores slices of one size that ANOTHER node shredded and
+    // shreds slices of another size itself, in every order. Every slice that fits must be shreddable and every >= 32 of its
+    // shreds must restore it, whatever the instance did before (the property quantifies over slices and subsets, not over
+    // histories). Sizes: the maximum slice (shard size 1024 = the coder's initial configuration), just below it, ~1000 bytes,
+    // tiny, random. The model is stateless, so these cases are ordinary compared cases.
+    {
+        let n_hist = if args.thorough { 40 } else { 7 };
+        for v in V::ALL {
+            for hcase in 0..n_hist {
+                let lim = v.limit();
+                let ov = v.overhead();
+                // payload lengths by shard-size class
+                let pick_len = |rng: &mut Rng, class: u64| -> usize {
+                    match class {
+                        0 => lim,                                                  // maximum slice: shard size 1024
+                        1 => lim - rng.below(64) as usize,                         // still shard size 1024 (l / 64 == 511)
+                        2 => 1000 + rng.below(24) as usize,                        // the ~1000-byte slice
+                        3 => 9 + rng.below(100) as usize,                          // tiny
+                        4 => lim - 64 - rng.below(64) as usize,                    // shard size 1022
+                        _ => 9 + rng.below((lim - 9) as u64) as usize,
+                    }
+                };
+                let same_shard_size = |rng: &mut Rng, plen: usize| -> usize {
+                    let l = plen + ov;
+                    let l2 = 64 * (l / 64) + rng.below(64) as usize;
+                    (l2.max(9 + ov) - ov).min(lim)
+                };
+                // (own = shredded by the instance under test, payload length)
+                let mut plan: Vec<(bool, usize)> = vec![];
+                let fresh;
+                match hcase {
+                    0 => {
+                        // fresh instance, restore a ~1000-byte slice, then shred the maximum slice
+                        fresh = true;
+                        plan.push((false, pick_len(&mut rng, 2)));
+                        plan.push((true, lim));
+                        plan.push((false, pick_len(&mut rng, 3)));
+                        plan.push((true, pick_len(&mut rng, 1)));
+                    }
+                    1 => {
+                        // shred A, restore B, shred A again (same shard size, another slice), for two random classes
+                        fresh = rng.chance(1, 2);
+                        let (ca, cb) = (rng.below(6), rng.below(6));
+                        let a = pick_len(&mut rng, ca);
+                        let mut b = pick_len(&mut rng, cb);
+                        if (a + ov) / 64 == (b + ov) / 64 { b = if a > 2000 { pick_len(&mut rng, 3) } else { pick_len(&mut rng, 0) }; }
+                        plan.push((true, a));
+                        plan.push((false, b));
+                        plan.push((true, same_shard_size(&mut rng, a)));
+                        plan.push((false, a));
+                        plan.push((true, same_shard_size(&mut rng, b)));
+                    }
+                    2 => {
+                        // fresh instance, restore the maximum slice first, then a small one, then shred both sizes
+                        fresh = true;
+                        plan.push((false, lim));
+                        plan.push((false, pick_len(&mut rng, 3)));
+                        plan.push((true, pick_len(&mut rng, 1)));
+                        plan.push((false, pick_len(&mut rng, 2)));
+                        plan.push((true, pick_len(&mut rng, 3)));
+                    }
+                    _ => {
+                        fresh = rng.chance(1, 3);
+                        let classes = [rng.below(6), rng.below(6), rng.below(3)];
+                        let lens: Vec<usize> = classes.iter().map(|c| pick_len(&mut rng, *c)).collect();
+                        for _ in 0..rng.range(4, 8) {
+                            let l = *rng.pick(&lens);
+                            let l = if rng.chance(1, 2) { same_shard_size(&mut rng, l) } else { l };
+                            plan.push((rng.chance(1, 2), l));
+                        }
+                    }
+                }
+                cx.class = 0;
+                cx.hist.clear();
+                cx.rec.begin_case("instance-history");
+                if fresh {
+                    fresh_pool();
+                    cx.rec.count("history:fresh-instance");
+                } else {
+                    cx.hist.push("(earlier cases)".to_string());
+                }
+                for (own, plen) in plan {
+                    let with_parent = plen >= 49 && rng.chance(1, 2);
+                    let hdr = if with_parent { 49 } else { 9 };
+                    let spec = SliceSpec {
+                        slot: rng.below(1 << 40),
+                        idx: rng.below(1024) as usize,
+                        last: rng.chance(1, 2),
+                        parent: if with_parent { Some((rng.below(1 << 40), rng.below(256))) } else { None },
+                        len: plen - hdr,
+                        a: rng.below(256),
+                        b: rng.below(256),
+                        tail: if rng.chance(1, 4) { vec![0x80, 0, 0] } else { vec![] },
+                    };
+                    cx.slice(spec);
+                    cx.shred_on(v, rng.below(256), !own);
+                    cx.rec.count(if own { "history:shred-own" } else { "history:deshred-foreign" });
+                    if cx.out.is_none() { continue; }
+                    // a foreign slice is always restored by the instance under test; an own one sometimes
+                    if !own || rng.chance(1, 3) {
+                        let k = match rng.below(4) { 0 => 32, 1 => 64, _ => 32 + rng.below(33) as usize };
+                        let m = random_mask(&mut rng, k);
+                        cx.deshred(v, &m, &[]);
+                    }
+                    // fewer than 32 shreds: refused before the coder is touched
+                    if rng.chance(1, 6) {
+                        let k = rng.below(32) as usize;
+                        let m = random_mask(&mut rng, k);
+                        cx.deshred(v, &m, &[]);
+                    }
+                }
+                let class = cx.class;
+                cx.rec.end_case(class, true);
+            }
+        }
     }
 
     // ---- history independence (oracle only, outside the compared stream): on one long-lived shredder a decode that
